@@ -239,7 +239,8 @@ def body_facts(tree):
         # then the right-hand sides must be translated somewhere before that loop
         if sum(_calls_handle_expr(s) for s in branches["Assign"]) == 0:
             raise Unsupported("_handle_fn_body: tuple assignment never translates the right-hand sides")
-    return tuple_sim, refused, branch_facts(tree, branches["If"]), assign_facts(branches["Assign"]), import_facts(branches["ImportFrom"])
+    stmt_kinds = [k for k in kinds if k != "<harmless>"] + (["Expr", "Pass"] if "<harmless>" in kinds else [])
+    return tuple_sim, refused, branch_facts(tree, branches["If"]), assign_facts(branches["Assign"]), import_facts(branches["ImportFrom"]), stmt_kinds
 
 
 def _attr_path(n) -> str:
@@ -411,6 +412,91 @@ def branch_facts(tree, if_branch):
     return copies, checked, boolean, imports_copied
 
 
+CB_ATOMS = {
+    "_always_returns(branch)": "alwaysReturns",
+    "plain": "plain",
+    "not rest": "restEmpty",
+    "len(rest) == 1": "restLen1",
+    "isinstance((ret := rest[0]), ast.Return)": "rest0Return",
+    "isinstance(ret.value, ast.Name)": "retValueName",
+    "cast(ast.Name, cast(ast.Assign, branch[-1]).targets[0]).id == ret.value.id": "lastTargetIsRet",
+}
+PLAIN_DEF = ("bool(branch) and all((isinstance(node, ast.Assign) and len(node.targets) == 1 and "
+             "isinstance(node.targets[0], ast.Name) for node in branch))")
+ALWAYS_RETURNS_BODY = [
+    "for node in body:\n    if isinstance(node, ast.Return):\n        return True\n"
+    "    if isinstance(node, ast.If) and _always_returns(node.body) and _always_returns(node.orelse):\n        return True",
+    "return False",
+]
+
+
+def _no_doc(fn: ast.FunctionDef):
+    b = fn.body
+    if b and isinstance(b[0], ast.Expr) and isinstance(b[0].value, ast.Constant) and isinstance(b[0].value.value, str):
+        return b[1:]
+    return b
+
+
+def check_branch_dnf(tree) -> list[list[str]]:
+    """`_check_branch(branch, rest)` as the list of its accepting conditions (`if <conjunction>: return`, in order, then
+    `raise`), every conjunct one of the known atoms; `_always_returns` must be the two-clause loop the model's
+    `bodyReturns` is written after.  Anything else is outside the supported subset."""
+    ar = [ast.unparse(x) for x in _no_doc(_fn(tree, "_always_returns"))]
+    if ar != ALWAYS_RETURNS_BODY:
+        raise Unsupported("_always_returns: body differs from the two-clause loop (Return / If with both branches)")
+    dnf = []
+    body = _no_doc(_fn(tree, "_check_branch"))
+    seen_plain = False
+    for st in body[:-1]:
+        if isinstance(st, ast.Assign) and _is_name(st.targets[0], "plain"):
+            if ast.unparse(st.value) != PLAIN_DEF:
+                raise Unsupported(f"_check_branch: plain = {ast.unparse(st.value)}")
+            seen_plain = True
+            continue
+        if isinstance(st, ast.Assign) and _is_name(st.targets[0], "msg"):
+            continue
+        if not (isinstance(st, ast.If) and not st.orelse and len(st.body) == 1 and isinstance(st.body[0], ast.Return)
+                and st.body[0].value is None):
+            raise Unsupported(f"_check_branch: statement {ast.unparse(st)[:60]}")
+        conj = st.test.values if isinstance(st.test, ast.BoolOp) and isinstance(st.test.op, ast.And) else [st.test]
+        atoms = []
+        for c in conj:
+            t = ast.unparse(c)
+            if t not in CB_ATOMS:
+                raise Unsupported(f"_check_branch: condition {t}")
+            if t == "plain" and not seen_plain:
+                raise Unsupported("_check_branch: plain used before its definition")
+            atoms.append(CB_ATOMS[t])
+        dnf.append(atoms)
+    if not isinstance(body[-1], ast.Raise):
+        raise Unsupported("_check_branch: does not end in raise")
+    return dnf
+
+
+def expr_kinds(tree) -> list[str]:
+    """the `ast` classes `_handle_expr` dispatches on (top-level `if isinstance(node, ast.X)` statements), then raise"""
+    fn = _fn(tree, "_handle_expr")
+    out = []
+    body = _no_doc(fn)
+    for st in body:
+        if isinstance(st, ast.If):
+            t = st.test
+            if not (isinstance(t, ast.Call) and _is_name(t.func, "isinstance") and _is_name(t.args[0], "node")) or st.orelse:
+                raise Unsupported(f"_handle_expr: dispatch test {ast.unparse(t)}")
+            if _is_name(t.args[1], "float"):
+                continue  # an ast node is never a float: dead
+            if not (isinstance(t.args[1], ast.Attribute) and _is_name(t.args[1].value, "ast")):
+                raise Unsupported(f"_handle_expr: dispatch test {ast.unparse(t)}")
+            out.append(t.args[1].attr)
+        elif isinstance(st, ast.Assign) and _is_name(st.targets[0], "msg"):
+            continue
+        elif isinstance(st, ast.Raise):
+            return out
+        else:
+            raise Unsupported(f"_handle_expr: statement {ast.unparse(st)[:60]}")
+    raise Unsupported("_handle_expr: does not end in raise")
+
+
 def lstr(s: str) -> str:
     return '"' + s.replace("\\", "\\\\").replace('"', '\\"') + '"'
 
@@ -422,7 +508,9 @@ def render(repo: Path) -> str:
     fns = _dict(tree, "KNOWN_FNS")
     consts = _dict(tree, "KNOWN_CONSTANTS")
     sim = subst_simultaneous(tree)
-    tup, refused, (copies, checked, boolean, imports_copied), (chain, unpack), imports_strict = body_facts(tree)
+    tup, refused, (copies, checked, boolean, imports_copied), (chain, unpack), imports_strict, stmt_kinds = body_facts(tree)
+    dnf = check_branch_dnf(tree) if checked else []
+    ekinds = expr_kinds(tree)
     sig = sig_strict(tree)
     b = lambda x: "true" if x else "false"  # noqa: E731
     lines = [
@@ -440,6 +528,12 @@ def render(repo: Path) -> str:
         "def knownConsts : List (String × String) := [",
         ",\n".join(f"  ({lstr(k)}, {lstr(v)})" for k, v in consts),
         "]",
+        "",
+        "/-- the `ast` classes `_handle_expr` / the statement loop of `_handle_fn_body` dispatch on; everything else raises -/",
+        "def exprKinds : List String := [" + ", ".join(lstr(k) for k in ekinds) + "]",
+        "def stmtKinds : List String := [" + ", ".join(lstr(k) for k in stmt_kinds) + "]",
+        "/-- `_check_branch`: the accepting conditions (each a conjunction), in source order -/",
+        "def checkBranchAccept : List (List CBAtom) := [" + ", ".join("[" + ", ".join("." + a for a in c) + "]" for c in dnf) + "]",
         "",
         "def tables : Tables where",
         "  unops := unops",
